@@ -40,7 +40,7 @@ def Oversize (e : Err) : Prop :=
 variable (hix : WinOK ix values) (hixlen : ix.length = N + 1) (htiles : Tiles subs 0 N)
   (hsE : sE ≤ map_.length) (hesLen : sE ≤ esL.length) (hcapI : sE - sS ≤ capI)
   (hwin : ∀ (p : Nat) (k : Int), sS ≤ p → p < sE → map_[p]? = some k → k ≠ inv → 0 ≤ k - f ∧ k - f < N)
-  (hmono : ∀ (p q : Nat) (x y : Int), p ≤ q → map_[p]? = some x → map_[q]? = some y → x ≠ inv → y ≠ inv → x ≤ y)
+  (hmono : MonoOn map_ inv sS sE)
   (hes : ∀ (p : Nat) (k : Int), sS ≤ p → p < sE → map_[p]? = some k →
       esL[p]? = some (if k = inv then [] else wentry ix values (k - f).toNat))
 
@@ -106,7 +106,7 @@ theorem innerBody_spec (w : IW β) (hI : InnerInv map_ sS sE ix values subs f ca
       · simp only [innerBody, hri, hrv, hrun, hneed, Bool.not_true, Bool.and_false, Bool.false_eq_true, if_false, if_true, hgs, hvw]
       · intro p k' hp1 hp2 hpk' hki'
         simp only [] at hp1 ⊢
-        have := hmono r.sm p k k' hp1 hk hpk' hki hki'
+        have := hmono r.sm p k k' (by omega) hp1 hp2 hk hpk' hki hki'
         omega
       · have := (List.getElem?_eq_some_iff.mp hz).1
         simp only []; omega
